@@ -6,12 +6,12 @@ From RGW Require Import Gen_C03.
 Import ListNotations.
 Local Open Scope Z_scope.
 
-(* the regenerated in-range test of nodeText never panics and accepts exactly 0 <= from < |src|, 0 <= to <= |src| *)
+(* the regenerated in-range test of nodeText never panics and accepts exactly 0 <= from < |src|, from <= to <= |src| *)
 Lemma in_range_spec from to src :
-  nodeTextInRange from to src = Ok ((0 <=? from) && (from <? len src) && ((0 <=? to) && (to <=? len src))).
+  nodeTextInRange from to src = Ok ((0 <=? from) && (from <? len src) && ((from <=? to) && (to <=? len src))).
 Proof.
   unfold nodeTextInRange, bind.
-  destruct (Z.leb 0 from), (Z.ltb from (len src)), (Z.leb 0 to), (Z.leb to (len src)); reflexivity.
+  destruct (Z.leb 0 from), (Z.ltb from (len src)), (Z.leb from to), (Z.leb to (len src)); reflexivity.
 Qed.
 
 (* node_text_exact: a node that lies in the file, INCLUDING one that ends exactly at EOF, is rendered as its source bytes *)
@@ -20,17 +20,21 @@ Lemma node_text_exact src from to fb :
   node_text nodeTextInRange src from to fb = Ok (sub src from to).
 Proof.
   intros H1 H2 H3 H4. unfold node_text. rewrite in_range_spec. cbn [bind].
-  replace ((0 <=? from) && (from <? len src) && ((0 <=? to) && (to <=? len src))) with true by lia.
+  replace ((0 <=? from) && (from <? len src) && ((from <=? to) && (to <=? len src))) with true by lia.
   rewrite slice_ok by lia. reflexivity.
 Qed.
 
-(* outside the file the fallback text is used; nodeText never panics for from <= to *)
-Lemma node_text_total src from to fb : from <= to -> exists r, node_text nodeTextInRange src from to fb = Ok r.
+(* outside the file the fallback text is used; nodeText never panics -- also when the extent is reversed (from > to: the
+   nodes of a gogrep node list need not be in source order), the fallback is used then *)
+Lemma node_text_total_any src from to fb : exists r, node_text nodeTextInRange src from to fb = Ok r.
 Proof.
-  intros H. unfold node_text. rewrite in_range_spec. cbn [bind].
-  destruct ((0 <=? from) && (from <? len src) && ((0 <=? to) && (to <=? len src))) eqn:E; [|eauto].
+  unfold node_text. rewrite in_range_spec. cbn [bind].
+  destruct ((0 <=? from) && (from <? len src) && ((from <=? to) && (to <=? len src))) eqn:E; [|eauto].
   rewrite slice_ok by lia. eauto.
 Qed.
+
+Lemma node_text_total src from to fb : from <= to -> exists r, node_text nodeTextInRange src from to fb = Ok r.
+Proof. intros _. apply node_text_total_any. Qed.
 
 (* every fact read off runner.go / ir_loader.go holds *)
 Lemma c03_facts_hold : forallb snd gen_c03_facts = true.
